@@ -4,6 +4,7 @@ package immutwork
 
 import (
 	"crypto/rand"
+	"errors"
 	"fmt"
 	"sort"
 	"strings"
@@ -13,6 +14,7 @@ import (
 	"github.com/ipld/go-ipld-prime/datamodel"
 	"github.com/libp2p/go-libp2p/core/crypto"
 	"github.com/ucan-wg/go-ucan/did"
+	"github.com/ucan-wg/go-ucan/pkg/args"
 	"github.com/ucan-wg/go-ucan/pkg/command"
 	"github.com/ucan-wg/go-ucan/pkg/policy"
 	"github.com/ucan-wg/go-ucan/token/delegation"
@@ -21,10 +23,12 @@ import (
 
 type Fixture struct {
 	Inv     *invocation.Token
-	Dlg     *delegation.Token
+	Dlg     *delegation.Token // the root delegation (subject → mid), carries the metadata
+	Leaf    *delegation.Token // mid → invoker; when constructed, its policy slice has spare capacity
 	Loader  Loader
 	InvKey  crypto.PrivKey
 	DlgKey  crypto.PrivKey
+	MidKey  crypto.PrivKey
 	ArgKeys []string
 	MetaKey []string
 }
@@ -50,8 +54,13 @@ func New(argKeys, metaKeys []string, decoded bool) (*Fixture, error) {
 	if err != nil {
 		return nil, err
 	}
+	mk, _, err := crypto.GenerateEd25519Key(rand.Reader)
+	if err != nil {
+		return nil, err
+	}
 	sd, _ := did.FromPrivKey(sk)
 	id, _ := did.FromPrivKey(ik)
+	md, _ := did.FromPrivKey(mk)
 	var dopts []delegation.Option
 	for i, k := range metaKeys {
 		dopts = append(dopts, delegation.WithMeta(k, int64(i)))
@@ -60,7 +69,7 @@ func New(argKeys, metaKeys []string, decoded bool) (*Fixture, error) {
 	if len(argKeys) > 0 {
 		pol = policy.MustConstruct(policy.GreaterThanOrEqual("."+argKeys[0]+"?", intNode(0)))
 	}
-	d, err := delegation.Root(sd, id, command.MustParse("/x"), pol, dopts...)
+	d, err := delegation.Root(sd, md, command.MustParse("/x"), pol, dopts...)
 	if err != nil {
 		return nil, err
 	}
@@ -73,6 +82,23 @@ func New(argKeys, metaKeys []string, decoded bool) (*Fixture, error) {
 			return nil, err
 		}
 	}
+	// the leaf's policy is built incrementally: the slice keeps spare capacity, which a read-only
+	// operation must not write into (the delegation is shared between invocations and goroutines)
+	leafPol := make(policy.Policy, 0, 8)
+	leafPol = append(leafPol, policy.MustConstruct(policy.Not(policy.Equal(".never?", intNode(-1))))...)
+	leaf, err := delegation.New(md, id, command.MustParse("/x"), leafPol, delegation.WithSubject(sd))
+	if err != nil {
+		return nil, err
+	}
+	lsealed, lc, err := leaf.ToSealed(mk)
+	if err != nil {
+		return nil, err
+	}
+	if decoded {
+		if leaf, _, err = delegation.FromSealed(lsealed); err != nil {
+			return nil, err
+		}
+	}
 	var iopts []invocation.Option
 	for i, k := range argKeys {
 		iopts = append(iopts, invocation.WithArgument(k, int64(i+1)))
@@ -80,7 +106,7 @@ func New(argKeys, metaKeys []string, decoded bool) (*Fixture, error) {
 	for i, k := range metaKeys {
 		iopts = append(iopts, invocation.WithMeta(k, int64(i)))
 	}
-	inv, err := invocation.New(id, sd, command.MustParse("/x/y"), []cid.Cid{c}, iopts...)
+	inv, err := invocation.New(id, sd, command.MustParse("/x/y"), []cid.Cid{lc, c}, iopts...)
 	if err != nil {
 		return nil, err
 	}
@@ -93,7 +119,7 @@ func New(argKeys, metaKeys []string, decoded bool) (*Fixture, error) {
 			return nil, err
 		}
 	}
-	return &Fixture{Inv: inv, Dlg: d, Loader: Loader{c: d}, InvKey: ik, DlgKey: sk, ArgKeys: argKeys, MetaKey: metaKeys}, nil
+	return &Fixture{Inv: inv, Dlg: d, Leaf: leaf, Loader: Loader{c: d, lc: leaf}, InvKey: ik, DlgKey: sk, MidKey: mk, ArgKeys: argKeys, MetaKey: metaKeys}, nil
 }
 
 func keysOf(it func(func(string, datamodel.Node) bool)) []string {
@@ -105,6 +131,50 @@ func keysOf(it func(func(string, datamodel.Node) bool)) []string {
 // Snapshot is what can be observed of the token's argument and metadata key order.
 func (f *Fixture) Snapshot() (argOrder, metaOrder, dlgMetaOrder []string) {
 	return keysOf(f.Inv.Arguments().Iter()), keysOf(f.Inv.Meta().Iter()), keysOf(f.Dlg.Meta().Iter())
+}
+
+// SpareWritten counts the cells of the shared delegations' policy slices beyond their length that hold
+// something: read-only use must leave the spare capacity of a shared slice alone.
+func (f *Fixture) SpareWritten() int {
+	n := 0
+	for _, d := range []*delegation.Token{f.Leaf, f.Dlg} {
+		p := d.Policy()
+		for _, st := range p[len(p):cap(p)] {
+			if st != nil {
+				n++
+			}
+		}
+	}
+	return n
+}
+
+func argKeysSorted(a interface {
+	ToIPLD() (datamodel.Node, error)
+}) []string {
+	n, err := a.ToIPLD()
+	if err != nil {
+		return []string{"ToIPLD: " + err.Error()}
+	}
+	var ks []string
+	it := n.MapIterator()
+	for !it.Done() {
+		k, _, _ := it.Next()
+		s, _ := k.AsString()
+		ks = append(ks, s)
+	}
+	return ks
+}
+
+// observingLoader answers like the fixture's loader and, while the authorization check is running,
+// looks at the invocation the way any other reader could (re-entrancy stands for a concurrent reader)
+type observingLoader struct {
+	f    *Fixture
+	seen [][]string
+}
+
+func (l *observingLoader) GetDelegation(c cid.Cid) (*delegation.Token, error) {
+	l.seen = append(l.seen, argKeysSorted(l.f.Inv.Arguments()))
+	return l.f.Loader.GetDelegation(c)
 }
 
 // keysInText lists the given keys by their first position in a printed form
@@ -164,6 +234,35 @@ func (f *Fixture) Run(op string) ([]string, string) {
 			ks = append(ks, s)
 		}
 		return ks, ""
+	case "executionAllowedHook":
+		// the hook variant checks against replaced arguments; the token's own arguments, as seen by anyone
+		// during and after the call, stay what they were
+		l := &observingLoader{f: f}
+		err := f.Inv.ExecutionAllowedWithArgsHook(l, func(ro args.ReadOnly) (*args.Args, error) {
+			na := ro.WriteableClone()
+			if err := na.Add("hooked", true); err != nil {
+				return nil, err
+			}
+			return na, nil
+		})
+		if err != nil {
+			return nil, "ExecutionAllowedWithArgsHook: " + err.Error()
+		}
+		after := argKeysSorted(f.Inv.Arguments())
+		for _, s := range l.seen {
+			if strings.Join(s, ",") != strings.Join(after, ",") {
+				return s, "" // what a reader saw during the call differs: report that view
+			}
+		}
+		return after, ""
+	case "executionAllowedMissing":
+		// the same token checked with a loader that has none of its proofs: must fail whatever happened before
+		if err := f.Inv.ExecutionAllowed(Loader{}); err == nil {
+			return nil, "ExecutionAllowed succeeded with a loader that has none of the proofs"
+		} else if !errors.Is(err, invocation.ErrMissingDelegation) {
+			return nil, "ExecutionAllowed with an empty loader: " + err.Error()
+		}
+		return argKeysSorted(f.Inv.Arguments()), ""
 	case "seal":
 		if _, _, err := f.Inv.ToSealed(f.InvKey); err != nil {
 			return nil, "ToSealed: " + err.Error()
@@ -174,8 +273,12 @@ func (f *Fixture) Run(op string) ([]string, string) {
 		if _, _, err := f.Dlg.ToSealed(f.DlgKey); err != nil {
 			return nil, "ToSealed(delegation): " + err.Error()
 		}
+		if _, _, err := f.Leaf.ToSealed(f.MidKey); err != nil {
+			return nil, "ToSealed(leaf delegation): " + err.Error()
+		}
 		_ = f.Dlg.Meta().String()
 		_ = f.Dlg.Policy().String()
+		_ = f.Leaf.Policy().String()
 		n, _ := f.Inv.Arguments().ToIPLD()
 		var ks []string
 		it := n.MapIterator()
@@ -189,14 +292,16 @@ func (f *Fixture) Run(op string) ([]string, string) {
 	return nil, "unknown op " + op
 }
 
-var Ops = []string{"argsToIPLD", "argsString", "metaString", "argsIter", "metaIter", "executionAllowed", "seal"}
+var Ops = []string{"argsToIPLD", "argsString", "metaString", "argsIter", "metaIter", "executionAllowed", "seal", "executionAllowedHook", "executionAllowedMissing"}
 
 // Concurrent runs every operation from `workers` goroutines on the SAME tokens and reports the first result
 // that differs from the one obtained when the operation ran alone, or a change of the observable key order.
-func Concurrent(f *Fixture, workers, rounds int) string {
+func Concurrent(twin, f *Fixture, workers, rounds int) string {
+	// what each operation returns alone is taken from a twin built the same way, so that the tokens used
+	// concurrently have never been touched before: the very first uses already run side by side
 	alone := map[string]string{}
 	for _, op := range Ops {
-		ks, e := f.Run(op)
+		ks, e := twin.Run(op)
 		alone[op] = strings.Join(ks, ",") + "|" + e
 	}
 	a0, m0, d0 := f.Snapshot()
@@ -213,6 +318,9 @@ func Concurrent(f *Fixture, workers, rounds int) string {
 			}()
 			for r := 0; r < rounds; r++ {
 				op := Ops[(w+r)%len(Ops)]
+				if r == 0 {
+					op = []string{"executionAllowed", "executionAllowedHook"}[w%2]
+				}
 				ks, e := f.Run(op)
 				if got := strings.Join(ks, ",") + "|" + e; got != alone[op] {
 					bad <- fmt.Sprintf("%s returned %q concurrently but %q alone", op, got, alone[op])
@@ -229,6 +337,9 @@ func Concurrent(f *Fixture, workers, rounds int) string {
 	a1, m1, d1 := f.Snapshot()
 	if strings.Join(a0, ",") != strings.Join(a1, ",") || strings.Join(m0, ",") != strings.Join(m1, ",") || strings.Join(d0, ",") != strings.Join(d1, ",") {
 		return "the key order observable through Iter() changed during read-only use"
+	}
+	if n := f.SpareWritten(); n != 0 {
+		return fmt.Sprintf("read-only use wrote %d cell(s) into the spare capacity of a shared delegation's policy slice", n)
 	}
 	return "ok"
 }
